@@ -1,4 +1,5 @@
 import AndaVerif.Model.CollQuery
+import AndaVerif.Model.CollCrash
 import AndaVerif.Drv.Util
 /-
 Line protocol of the collection model (shared by `drv_c02` and `drv_c04`).
@@ -12,6 +13,13 @@ Line protocol of the collection model (shared by `drv_c02` and `drv_c04`).
   reopen                           → `ok`      (close + open; the open ends with a flush, which the
                                                driver applies before the first following data line)
   flush                            → `ok`
+  crash                            → `ok`      (power loss at this point — nothing since the last flush but the
+                                               document objects and the mutation intents survives — then
+                                               `open_collection`: the following index operations run in the open
+                                               callback on the loaded, not yet recovered state; recovery
+                                               (`replay_mutation_intents`, `auto_repair_indexes`) and the final flush
+                                               are applied before the first following line that is not one)
+  check                            → `ok`      (no operation; a place to look at the state)
   dump                             → the canonical observable state, one line
   q <name> <rq>                    → `ids <csv>` | `err:index`   (`Filter::Field((name, rq))`, ids ascending)
        rq ::= leaf | or(leaf|leaf…) | and(leaf|leaf…) | not(leaf)
@@ -133,73 +141,95 @@ def parseRQ (t : String) : Option (RQ Int) :=
       | some b => (parseLeaf b).map .not
       | none => parseLeaf t
 
-def stepLine1 (s : State) (line : String) : State × String :=
-  let run (op : Op) : State × String := let r := step s op; (r.1, showOut r.2 ++ " #" ++ tagOf s op)
+def stepLine1 (x : DState) (line : String) : DState × String :=
+  let s := x.s
+  let run (op : Op) : DState × String := let r := dstep x (.op op); (r.1, showOut r.2 ++ " #" ++ tagOf s op)
   match words line with
   | "schema" :: defs =>
       match defs.mapM parseFieldDef with
-      | some sch => (init sch, "ok")
-      | none => (s, "bad-op")
+      | some sch => (dinit sch, "ok")
+      | none => (x, "bad-op")
   | "add" :: fvs =>
       match fvs.mapM parseFieldVal with
       | some d => run (.add d)
-      | none => (s, "bad-op")
+      | none => (x, "bad-op")
   | "upd" :: id :: fvs =>
       match id.toNat?, fvs.mapM parseFieldVal with
       | some id, some fs => run (.update id fs)
-      | _, _ => (s, "bad-op")
+      | _, _ => (x, "bad-op")
   | ["rm", id] =>
       match id.toNat? with
       | some id => run (.remove id)
-      | none => (s, "bad-op")
+      | none => (x, "bad-op")
   | ["mkbt", name, fields] =>
       match name.toNat?, natList? fields with
       | some n, some fs => run (.createBt n fs)
-      | _, _ => (s, "bad-op")
+      | _, _ => (x, "bad-op")
   | ["mktx", fields] =>
       match natList? fields with
       | some fs => run (.createTx fs)
-      | none => (s, "bad-op")
+      | none => (x, "bad-op")
   | ["mkhn", field, dim] =>
       match field.toNat?, dim.toNat? with
       | some f, some d => run (.createHn f d)
-      | _, _ => (s, "bad-op")
+      | _, _ => (x, "bad-op")
   | ["rmbt", name] =>
       match name.toNat? with
       | some n => run (.removeBt n)
-      | none => (s, "bad-op")
+      | none => (x, "bad-op")
   | ["rmtx", fields] =>
       match natList? fields with
       | some fs => run (.removeTx fs)
-      | none => (s, "bad-op")
+      | none => (x, "bad-op")
   | ["rmhn", field] =>
       match field.toNat? with
       | some f => run (.removeHn f)
-      | none => (s, "bad-op")
+      | none => (x, "bad-op")
   | ["reopen"] => run .reopen
   | ["flush"] => run .flush
-  | ["dump"] => (s, dump s)
+  | ["crash"] =>
+      -- the tag says what recovery will have to do
+      let handed := x.intents.length
+      let above := (x.s.docs.filter (fun p => decide (x.checkpoint < p.1))).length
+      (crashLoad x, s!"ok #crash:intents{min handed 3}:docs-above-checkpoint{min above 3}")
+  | ["check"] => (x, "ok")
+  | ["dump"] => (x, dump s)
   | ["q", name, rq] =>
       match name.toNat?, parseRQ rq with
       | some n, some q =>
-          (s, match fieldFilter s n q with
+          (x, match fieldFilter s n q with
               | none => "err:index"
               | some ids => "ids " ++ showNats (sortNats ids))
-      | _, _ => (s, "bad-op")
-  | ["poisoned"] => (s, if s.poisoned then "1" else "0")
-  | _ => (s, "bad-op")
+      | _, _ => (x, "bad-op")
+  | ["poisoned"] => (x, if s.poisoned then "1" else "0")
+  | _ => (x, "bad-op")
 
 def isIxLine (line : String) : Bool :=
   match words line with
   | w :: _ => ["mkbt", "mktx", "mkhn", "rmbt", "rmtx", "rmhn", "dump", "poisoned"].contains w
   | [] => true
 
-/-- `Collection::open` (and creation) ends with a flush after the callback: it is applied when the
-first line that is not an index operation of the group arrives. -/
-def stepLine (st : State × Bool) (line : String) : (State × Bool) × String :=
-  let s := if st.2 && !isIxLine line then flush st.1 else st.1
-  let inGroup := (st.2 && isIxLine line) || (match words line with | "schema" :: _ => true | ["reopen"] => true | _ => false)
-  let r := stepLine1 s line
-  ((r.1, inGroup), r.2)
+/-- what is still to be done when the group of index operations after `schema` / `reopen` / `crash` ends -/
+inductive Pending where
+  | none | flush | recover
+  deriving DecidableEq
+
+/-- `Collection::open` (and creation) ends with a flush after the callback, and after a crash with the
+recovery phases before it: they are applied when the first line that is not an index operation of the
+group arrives. -/
+def stepLine (st : DState × Pending) (line : String) : (DState × Pending) × String :=
+  let ends := !isIxLine line
+  let x := match st.2, ends with
+    | .flush, true => dflush st.1
+    | .recover, true => recover st.1
+    | _, _ => st.1
+  let pend : Pending :=
+    match words line with
+    | "schema" :: _ => .flush
+    | ["reopen"] => .flush
+    | ["crash"] => .recover
+    | _ => if ends then .none else st.2
+  let r := stepLine1 x line
+  ((r.1, pend), r.2)
 
 end AndaVerif.DrvColl
